@@ -18,6 +18,8 @@ package build
 
 import (
 	"fmt"
+	"go/constant"
+	"go/types"
 	"io"
 	"os"
 	"os/exec"
@@ -161,6 +163,11 @@ func (c *context) collectPackageInputs(m *manifestBuilder, pkg *aPackage) error 
 		return fmt.Errorf("list sfiles: %w", err)
 	}
 	otherFiles = append(otherFiles, sfiles...)
+	// Files whose content ends up in the archive without being listed by the
+	// go command as sources: //go:embed targets and the C sources named by
+	// the package's LLGoFiles constant.
+	otherFiles = append(otherFiles, p.EmbedFiles...)
+	otherFiles = append(otherFiles, llgoLinkSourceFiles(p)...)
 	if len(otherFiles) > 0 {
 		otherList, err := digestFilesWithOverlay(otherFiles, c.conf.Overlay)
 		if err != nil {
@@ -182,6 +189,36 @@ func (c *context) collectPackageInputs(m *manifestBuilder, pkg *aPackage) error 
 	// (LINK_ARGS/NEED_RT/NEED_PY_INIT are appended later in saveToCache)
 
 	return nil
+}
+
+// llgoLinkSourceFiles returns the existing source files named by the
+// package's LLGoFiles constant ("file1; file2" or "$(cflags): file1; file2").
+func llgoLinkSourceFiles(pkg *packages.Package) []string {
+	if pkg.Types == nil || len(pkg.GoFiles) == 0 {
+		return nil
+	}
+	o, ok := pkg.Types.Scope().Lookup("LLGoFiles").(*types.Const)
+	if !ok || o.Val().Kind() != constant.String {
+		return nil
+	}
+	files := constant.StringVal(o.Val())
+	if strings.HasPrefix(files, "$") {
+		if pos := strings.IndexByte(files, ':'); pos > 0 {
+			files = files[pos+1:]
+		}
+	}
+	dir := filepath.Dir(pkg.GoFiles[0])
+	var out []string
+	for _, file := range strings.Split(files, ";") {
+		if file = strings.TrimSpace(file); file == "" {
+			continue
+		}
+		path := filepath.Join(dir, file)
+		if _, err := os.Stat(path); err == nil {
+			out = append(out, path)
+		}
+	}
+	return out
 }
 
 // collectDependencyInputs adds dependency fingerprints/versions into manifest.
